@@ -64,6 +64,26 @@ SEEDS = {
               ["./share/shwap/"], ["-run", "TestSeededC18RangeIDV0SurvivesWireOrIsRefused", "./share/shwap/"]),
     "C18-2": ("C18/change2", "C18", [("demo/seeded_c18_range_stream_test.go", "share/shwap/seeded_c18_range_stream_test.go")],
               ["./share/shwap/", "./share/shwap/p2p/shrex/..."], ["-run", "TestSeededC18RangeDataSurvivesStream", "./share/shwap/"]),
+    "C16-3": ("C16/r2change1", "C16", [("demo/c16_dah_shape_test.go", "header/headertest/c16_dah_shape_test.go")],
+              ["./header/..."], ["-run", "TestC16_AddedColumnRoots", "./header/headertest/"]),
+    "C16-4": ("C16/r2change2", "C16", [("demo/c16_nonadjacent_trust_test.go", "header/headertest/c16_nonadjacent_trust_test.go")],
+              ["./header/..."], ["-run", "TestC16_NonAdjacent", "./header/headertest/"]),
+    "C15-3": ("C15/r2change2", "C15", [("demo/core/zz_c15_seed2_listener_test.go", "core/zz_c15_seed2_listener_test.go"), ("demo/full/zz_c15_seed2_avail_test.go", "share/availability/full/zz_c15_seed2_avail_test.go")],
+              ["./share/availability/...", "./pruner/..."], ["-run", "TestC15Seed2", "./core/", "./share/availability/full/"]),
+    "C14-3": ("C14/r2change1", "C14", [("demo/seeded_c14_failed_retry_test.go", "pruner/seeded_c14_failed_retry_test.go")],
+              ["./pruner/...", "./nodebuilder/pruner/..."], ["-run", "TestC14_FailedInEarlierBatchIsStillRetried|TestC14_RepeatedlyFailingBlockIsEventuallyPruned", "./pruner/"]),
+    "C05-3": ("C05/r2change1", "C05", [("demo/seeded_c05_1_test.go", "store/seeded_c05_1_test.go")],
+              ["./store/..."], ["-run", "TestSeededC05_1_TornODSIsRecoveredOnRePut", "./store/"]),
+    "C05-4": ("C05/r2change2", "C05", [("demo/seeded_c05_2_test.go", "store/seeded_c05_2_test.go")],
+              ["./store/..."], ["-run", "TestSeededC05_2_FailedFinalWriteIsNotServed", "./store/"]),
+    "C03-3": ("C03/r2change1", "C03", [("demo/shwap/seed_c03_prooftype_unit_test.go", "share/shwap/seed_c03_prooftype_unit_test.go"), ("demo/light/seed_c03_prooftype_test.go", "share/availability/light/seed_c03_prooftype_test.go")],
+              ["./share/shwap/", "./share/availability/..."], ["-run", "TestSeedC03", "./share/shwap/", "./share/availability/light/"]),
+    "C03-4": ("C03/r2change2", "C03", [("demo/light/seed_c03_unverified_container_test.go", "share/availability/light/seed_c03_unverified_container_test.go")],
+              ["./share/availability/..."], ["-run", "TestSeedC03InvalidResponsesThenDeadline", "./share/availability/light/"]),
+    "C11-1": ("C11/change1", "C11", [("demo/c11_mixed_share_versions_test.go", "blob/c11_mixed_share_versions_test.go")],
+              ["./blob/..."], ["-run", "TestC11_MixedShareVersionsInOneNamespace", "./blob/"]),
+    "C11-2": ("C11/change2", "C11", [("demo/c11_blob_after_padding_index_test.go", "blob/c11_blob_after_padding_index_test.go")],
+              ["./blob/..."], ["-run", "TestC11_BlobAfterPaddedBlobInSameRow", "./blob/"]),
     "C06-1": ("C06/change1", "C06", [("demo/sample_unverified_demo_test.go", "share/shwap/p2p/bitswap/sample_unverified_demo_test.go")],
               ["./share/shwap/p2p/bitswap/"], ["-run", "TestDemo_GetSamples", "./share/shwap/p2p/bitswap/"]),
     "C06-2": ("C06/change2", "C06", [("demo/eds_retry_demo_test.go", "share/shwap/p2p/shrex/shrex_getter/eds_retry_demo_test.go")],
